@@ -55,7 +55,7 @@ type Script struct {
 	ConnCode byte   `json:"conncode,omitempty"`
 	ConnSP   bool   `json:"connsp,omitempty"`
 	// how the server acknowledges the client's requests
-	AckPolicy string  `json:"ackpolicy"` // immediate shuffle
+	AckPolicy string  `json:"ackpolicy"`          // immediate shuffle
 	Withhold  int     `json:"withhold,omitempty"` // every n-th acknowledgement is held back until the end
 	Apps      [][]AOp `json:"apps"`
 	Srv       []SOp   `json:"srv,omitempty"`
@@ -110,40 +110,40 @@ type run struct {
 	cl   *service.Client
 	conn *simnet.Conn // server side endpoint
 
-	up, down     []*WirePkt // client->server, server->client
-	upS, downS   refmqtt.Stream
-	upF, downF   int64
-	upErr        error
-	reqs         []*request
-	cbs          []cbEvent
-	connectErr   error
-	connectRet   int64
-	connectCall  int64
-	connected    bool
-	connDone     simrt.Event
-	finish       bool
-	pending      []pendingAck
-	pendingPulse simrt.Pulse
-	nAcks        int
-	appState     []int // 0 running 1 barrier 2 finished
-	appBarrier   []simrt.Pulse
-	srvState     int
-	srvBarrier   simrt.Pulse
-	changed      simrt.Pulse
-	recvd        []*refmqtt.Packet
-	serverDead   bool
+	up, down                []*WirePkt // client->server, server->client
+	upS, downS              refmqtt.Stream
+	upF, downF              int64
+	upErr                   error
+	reqs                    []*request
+	cbs                     []cbEvent
+	connectErr              error
+	connectRet              int64
+	connectCall             int64
+	connected               bool
+	connDone                simrt.Event
+	finish                  bool
+	pending                 []pendingAck
+	pendingPulse            simrt.Pulse
+	nAcks                   int
+	appState                []int // 0 running 1 barrier 2 finished
+	appBarrier              []simrt.Pulse
+	srvState                int
+	srvBarrier              simrt.Pulse
+	changed                 simrt.Pulse
+	recvd                   []*refmqtt.Packet
+	serverDead              bool
 	libLeftAfterConnectFail []simrt.TaskInfo
 	libLeftAtEnd            []simrt.TaskInfo
 	clientClosed            bool
-	quiesce      []int64
-	noRel        map[uint16]bool
-	clientID     string
-	ackerStop    bool
-	finalStamp   int64
-	disconnected bool
-	sending      bool
-	sendWait     []*simrt.Task
-	raceInRun    map[byte]bool
+	quiesce                 []int64
+	noRel                   map[uint16]bool
+	clientID                string
+	ackerStop               bool
+	finalStamp              int64
+	disconnected            bool
+	sending                 bool
+	sendWait                []*simrt.Task
+	raceInRun               map[byte]bool
 }
 
 var runCounter uint64
@@ -900,12 +900,12 @@ func (r *run) raceTag(rq *request, ack *WirePkt) string {
 }
 
 type subWindow struct {
-	req     *request
-	filters []string
-	granted []bool
-	from    int64 // completion of the Subscribe
-	until   map[string]int64 // per filter: start of the Unsubscribe call that names it (certain end)
-	gone    map[string]int64 // per filter: completion of that Unsubscribe (possible end)
+	req       *request
+	filters   []string
+	granted   []bool
+	from      int64            // completion of the Subscribe
+	until     map[string]int64 // per filter: start of the Unsubscribe call that names it (certain end)
+	gone      map[string]int64 // per filter: completion of that Unsubscribe (possible end)
 	neverGone map[string]bool
 }
 
